@@ -325,6 +325,8 @@ func runC14(c *an.Ctx) {
 	ruleW2CountedOnce(c)
 	ruleW1Containment(c)
 	ruleW4(c)
+	ruleW5(c)
+	ruleW6(c)
 	// ---------------- W3 ----------------
 	ruleW3(c)
 }
